@@ -1,8 +1,11 @@
 package c06
 
 import (
+	"encoding/hex"
 	"fmt"
 	"sync"
+
+	"github.com/streamingfast/substreams/manifest"
 
 	pbsubstreams "github.com/streamingfast/substreams/pb/sf/substreams/v1"
 	"google.golang.org/protobuf/proto"
@@ -90,5 +93,75 @@ func quotedWhitespace(c *fw.Case, w witness, mods *pbsubstreams.Modules) {
 			report(c, "C06/block_filter_query/whitespace-inside-quoted-key-not-hashed", fmt.Sprintf("module %q: filter queries %q and %q select different keys but give the same hash %s", m.Name, qa, qb, ha), d)
 		}
 		return
+	}
+}
+
+
+// reusedGraph: a package is hashed, then a hashed field of one module is changed IN PLACE (as manifest.ApplyParams and
+// the CLI's parameter / initial-block overrides do) and the package is hashed again with a fresh ModuleHashes over the SAME
+// ModuleGraph object. Fields that do not alter the graph's edges are used, so the graph stays valid. The second hashes must
+// equal those of a freshly built graph of the changed package (no stale identifier may survive the change).
+func reusedGraph(c *fw.Case, w witness, mods *pbsubstreams.Modules) {
+	g := gen.MGClone(mods)
+	graph, err := manifest.NewModuleGraph(g.Modules)
+	if err != nil {
+		return
+	}
+	hashAll := func() (hashes, error) {
+		mh := manifest.NewModuleHashes()
+		h := hashes{}
+		for _, m := range g.Modules {
+			b, err := mh.HashModule(g, m, graph)
+			if err != nil {
+				return nil, err
+			}
+			h[m.Name] = hex.EncodeToString(b)
+		}
+		return h, nil
+	}
+	if _, err := hashAll(); err != nil {
+		return
+	}
+	for step := 0; step < 3; step++ {
+		m := g.Modules[c.R.Intn(len(g.Modules))]
+		what := ""
+		switch c.R.Intn(3) {
+		case 0: // params value (ApplyParams)
+			for _, in := range m.Inputs {
+				if p := in.GetParams(); p != nil {
+					p.Value = p.Value + fmt.Sprintf("&x=%d", c.R.Intn(1000))
+					what = "params-value"
+					break
+				}
+			}
+		case 1:
+			m.InitialBlock += uint64(1 + c.R.Intn(5))
+			what = "initial-block"
+		case 2:
+			m.BinaryEntrypoint = m.BinaryEntrypoint + "_v2"
+			what = "entrypoint"
+		}
+		if what == "" {
+			continue
+		}
+		if own, code := gen.MGCheck(g); own != nil || code != nil {
+			return // the changed package is not valid any more (initial block pushed past a dependency, ...)
+		}
+		fresh, err := directHashes(gen.MGClone(g), false)
+		if err != nil {
+			return
+		}
+		again, err := hashAll()
+		if err != nil {
+			report(c, "C06/hash-error-on-valid-graph/reused-graph", "hashing again over the same graph object failed: "+err.Error(), w.base())
+			return
+		}
+		c.Count("reused_graph_rehashes", 1)
+		if d := diffNames(fresh, again); len(d) > 0 {
+			det := w.base()
+			det["changed_module"], det["changed_field"], det["fresh_graph"], det["reused_graph"] = m.Name, what, fresh, again
+			report(c, "C06/stale-hash-after-in-place-change/"+what, fmt.Sprintf("after changing %s of module %q in place and hashing again with a fresh ModuleHashes over the same ModuleGraph, modules %v keep an identifier that differs from the one a freshly built graph gives", what, m.Name, d), det)
+			return
+		}
 	}
 }
